@@ -472,7 +472,12 @@ fn edit_voices(rng: &mut Rng, cur: &[Voice], pool: usize) -> Vec<Voice> {
 }
 
 fn gen_case(args: &Args, idx: usize, rng: &mut Rng) -> Case {
-    let pool = if args.q("displaced-survivor-shapes") { NT_SAFE } else { NT };
+    // Template 6 (Feed(1), Mem) shares leaves with templates 0 and 1: replacing it by one of them
+    // (or the reverse) yields the same pair of layouts as editing the voice's body, so "new sites
+    // start from zero" and "untouched sites continue" cannot both be read off the layouts. It is
+    // used only in the recorded history findings/C07/fixed/displaced_survivor.json.
+    let _ = NT;
+    let pool = NT_SAFE;
     let k = 1 + rng.below(pool.min(5));
     let initial = rand_voices(rng, k, pool);
     let mut cur = initial.clone();
